@@ -218,7 +218,7 @@ static Verdict runSnappyBad(const B &b) {
 static rc::Gen<El> genLzEl() {
   auto lit = rc::gen::map(rc::gen::pair(rc::gen::weightedOneOf<uint32_t>({{5, u32(0, 14)}, {3, rc::gen::element<uint32_t>(15, 16, 269, 270, 271, 524, 525, 526)}, {1, u32(15, 1200)}}), u32(0, 1 << 30)),
                           [](const std::pair<uint32_t, uint32_t> &p) { El e; e.kind = 0; e.len = p.first; e.seed = p.second; return e; });
-  auto mat = rc::gen::map(rc::gen::tuple(rc::gen::weightedOneOf<uint32_t>({{5, u32(4, 18)}, {3, rc::gen::element<uint32_t>(19, 20, 273, 274, 275, 528, 529, 530)}, {1, u32(19, 1200)}}), irange(0, 3), u32(0, 1 << 30)),
+  auto mat = rc::gen::map(rc::gen::tuple(rc::gen::weightedOneOf<uint32_t>({{50, u32(4, 18)}, {30, rc::gen::element<uint32_t>(19, 20, 273, 274, 275, 528, 529, 530)}, {10, u32(19, 1200)}, {1, rc::gen::element<uint32_t>(65039, 65040, 65041, 65042, 65554, 70000, 131072, 200000)}})   /* the block format has no upper limit on a match length */, irange(0, 3), u32(0, 1 << 30)),
                           [](const std::tuple<uint32_t, int, uint32_t> &t) { El e; e.kind = 1; e.len = std::get<0>(t); e.mode = std::get<1>(t); e.raw = std::get<2>(t); return e; });
   return rc::gen::weightedOneOf<El>({{1, lit}, {1, mat}});
 }
